@@ -52,6 +52,7 @@ def blocks(tier, seed):
     # histories: the same field on grids of equal shape but different spacings, in every order, each in a fresh process
     for shape in ([5], [3, 3], [4, 4], [2, 2, 2], [3, 3, 3]):
         out.append({"gridseq": True, "shape": shape})
+    out.append({"samegrid": True})
     if tier == "thorough":
         for shape in [(3, 3), (6,), (7,), (2, 4), (4, 2)]:
             add(shape, A, "base")
@@ -64,6 +65,12 @@ SEQ_SPACINGS = {1: [[1.0], [0.5], [1.6]], 2: [[1.0, 1.0], [0.5, 2.0], [2.0, 0.5]
 
 
 def cases(block):
+    if block.get("samegrid"):
+        # ONE grid object, several different fields analysed on it one after the other (fresh fork)
+        for shape, dx in (([4, 4], [0.5, 2.0]), ([3, 5], [1.0, 1.0]), ([2, 3, 2], [1.0, 2.0, 0.5]), ([6], [1.6])):
+            for order in itertools.permutations(range(4), 4):
+                yield {"samegrid": {"shape": shape, "dx": dx, "order": list(order)}}
+        return
     if block.get("gridseq"):
         shape = block["shape"]
         V = SEQ_SPACINGS[len(shape)]
@@ -153,11 +160,42 @@ def run_gridseq(case, ctx):
         ctx.check("C16.smooth-invariance", np.array_equal(np.asarray(alone[i][1]), Ss) and np.array_equal(np.asarray(alone[i][0]), ks), {"what": "history", "sequence": case["gridseq"], "at": i, "alone": alone[i][1], "in_sequence": Ss}, tags)
 
 
+def run_samegrid(case, ctx):
+    from pde import ScalarField
+
+    from droplets import get_structure_factor as gsf
+    from mcx import core
+
+    c = case["samegrid"]
+    shape = tuple(c["shape"])
+    n = int(np.prod(shape))
+    fields = [((np.arange(n) * (3 + 2 * i) % (5 + i)) - 1.0 - 0.5 * i).reshape(shape) for i in range(4)]
+
+    def body():
+        g = make_grid(shape, c["dx"], 0.0)
+        out = []
+        for i in c["order"]:
+            k, S = gsf(ScalarField(g, fields[i]), smoothing=None)
+            out.append((np.asarray(k), np.asarray(S)))
+        return out
+
+    res = core.in_fork(body)
+    ctx.op(len(res))
+    ctx.count("same-grid-object-sequences")
+    kref = ref_k_full(shape, c["dx"]).flat[1:]
+    for pos, (i, (k, S)) in enumerate(zip(c["order"], res)):
+        tags = {"history": "same-grid-object", "position": pos}
+        ctx.check("C16.k-grid", bool(np.allclose(k, kref, rtol=1e-13, atol=0)), {"order": c["order"], "at": pos}, tags)
+        ctx.check("C16.dft-definition", bool(np.allclose(S, ref_sf_full(fields[i]).flat[1:], rtol=0, atol=1e-12)), {"order": c["order"], "at": pos}, tags)
+
+
 def run_case(case, ctx):
     from pde import ScalarField
 
     from droplets import get_structure_factor as gsf
 
+    if "samegrid" in case:
+        return run_samegrid(case, ctx)
     if "gridseq" in case:
         return run_gridseq(case, ctx)
 
@@ -308,4 +346,4 @@ def run_case(case, ctx):
 
 def expected_positive(tier):
     return ["C16.nonneg", "C16.parseval", "C16.dft-definition", "C16.k-grid", "C16.k-scaling", "C16.scale", "C16.shift", "C16.reflect",
-            "C16.reflect-multiset", "C16.permute", "C16.add-zero", "C16.smooth-k", "C16.smooth-invariance", "C16.input-unmodified", "non-constant-field", "grid-sequences"]
+            "C16.reflect-multiset", "C16.permute", "C16.add-zero", "C16.smooth-k", "C16.smooth-invariance", "C16.input-unmodified", "non-constant-field", "grid-sequences", "same-grid-object-sequences"]
